@@ -25,6 +25,51 @@ def make_work(rng, tier):
         work.append({"id": "c03-%d" % i, "tables": tables, "runs": runs, "mode": "threaded" if threaded else "det",
                      "threads": rng.choice([1, 2, 16]), "det_partitions": rng.choice([1, 3]),
                      "sched": {"kind": rng.choice(["fifo", "lifo", "random"]), "seed": rng.below(1 << 30)}})
+    # directed family A: multi-key ORDER BY (integer key before a text key, every direction combination) over
+    # strings that share their first 12+ bytes, the table filled by several INSERTs (several storage segments,
+    # hence several sorted runs with more than one partition); same query under partitions 1..8
+    from . import gen
+    nA = 3 if tier == "quick" else 30
+    for i in range(nA):
+        cols = [("c0", "i32"), ("c1", "text")]
+        rows = [[rng.choice(["I1", "I1", "I2", "N"]), "S" + rng.choice(["shared_prefix_%02d" % k for k in range(1, 9)] + ["shared_prefix_", "twelve_chars"])]
+                for _ in range(rng.choice([12, 24, 40]))]
+        tables = [("t0", cols, rows, "virtual")]
+        k = max(1, len(rows) // rng.choice([2, 3, 4]))
+        prelude = [gen.create_table("t0", cols)] + gen.insert_rows("t0", cols, rows, chunk=k)
+        runs = []
+        for d0 in (0, 1):
+            for d1 in (0, 1):
+                lim = rng.choice([None, None, 3, 7])
+                sql = "SELECT x1.c0 AS r0, x1.c1 AS r1 FROM t0 AS x1 ORDER BY r0%s NULLS LAST, r1%s NULLS LAST%s" % (
+                    " DESC" if d0 else "", " DESC" if d1 else "", "" if lim is None else " LIMIT %d" % lim)
+                sx = "(order (select (fq (table 0)) - - - ((col 0 0) (col 0 1)) 0) ((0 %d 0) (1 %d 0)) %s 0)" % (d0, d1, "-" if lim is None else str(lim))
+                q = sqlgen.Q(sql, sx, ["i32", "text"], ["r0", "r1"], {"order", "sort_runs"}, ordered=True)
+                for parts in (1, 2, 4, 8):
+                    runs.append((q, {"partitions": parts, "batch_size": rng.choice([4, 64, 2048])}))
+        work.append({"id": "c03-sort-%d" % i, "tables": tables, "prelude": prelude, "runs": runs, "mode": "threaded", "threads": 4})
+    # directed family B: outer joins evaluated by the nested-loop operator with tiny batches - a preserved side that
+    # reaches one partition in several batches, early batches fully matched, later ones with unmatched rows
+    nB = 3 if tier == "quick" else 30
+    for i in range(nB):
+        cols = [("c0", "i32")]
+        n_l = rng.choice([2, 3, 5])
+        lrows = [["I%d" % (j + 1)] for j in range(n_l)]
+        rrows = [["I%d" % (j + 1)] for j in range(n_l)] + [["I%d" % (50 + j)] for j in range(rng.choice([1, 3, 4]))] + ([["N"]] if rng.chance(50) else [])
+        tables = [("t0", cols, lrows), ("t1", cols, rrows)]
+        runs = []
+        for kind in ("right", "left"):
+            for op, sym in (("eq", "="), ("ge", ">=")):
+                a, b = ("t0", "t1") if kind == "right" else ("t1", "t0")
+                ia, ib = (0, 1) if kind == "right" else (1, 0)
+                sql = "SELECT x1.c0 AS r0, x2.c0 AS r1 FROM %s AS x1 %s JOIN %s AS x2 ON (x1.c0 %s x2.c0)" % (a, kind.upper(), b, sym)
+                sx = "(select (join %s (fq (table %d)) (fq (table %d)) (cmp %s (col 0 0) (col 0 1)) 1 1) - - - ((col 0 0) (col 0 1)) 0)" % (kind, ia, ib, op)
+                q = sqlgen.Q(sql, sx, ["i32", "i32"], ["r0", "r1"], {"join_" + kind, "nl_outer_batches"})
+                for bs in (1, 2, 3, 2048):
+                    for hj in (False, True):
+                        runs.append((q, {"partitions": rng.choice([1, 2]), "batch_size": bs, "enable_hash_joins": hj}))
+        work.append({"id": "c03-nlj-%d" % i, "tables": tables, "runs": runs, "mode": "det", "det_partitions": 1,
+                     "sched": {"kind": "fifo", "seed": 1}})
     return work
 
 
